@@ -3,7 +3,7 @@ import numpy as np
 from hypothesis import strategies as st
 
 from gen.crystals import build_crystal, crystal_with_supercell, keys
-from oracles.models import dense_fc
+from oracles.models import dense_fc, own_magnetic_ops, own_ops
 from vlib.case import Out, Sub, relerr, rng_from, short_tb
 
 PROPERTY = "C01"
@@ -54,6 +54,11 @@ def fit_specs(draw, tier):
         # generate_displacements call with other settings on the same object
         forces_from=draw(st.sampled_from(["dataset", "supercells", "supercells"])),
         regenerate=draw(st.booleans()),
+        # a user may hand the type-1 dataset back with its entries in any order (the entries carry their atom index)
+        dataset_order=draw(st.sampled_from(["as_generated", "as_generated", "reassigned", "reversed", "shuffled"])),
+        # magnetic crystals: the force constants respect the magnetic space group only
+        magmom=draw(st.sampled_from(["none", "none", "none", "nc_uniform", "col_uniform", "col_afm"])),
+        magdir=draw(st.sampled_from(["z", "x", "a", "a+b", "generic"])),
     )
     return base
 
@@ -67,10 +72,27 @@ def run_fit(spec):
     cell = c["cell"]
     S = np.array(spec["smat"])
     pm = spec["pmat"]
+    mag = spec.get("magmom", "none")
+    unit_moments = None
+    if mag != "none":
+        L0 = np.array(cell.cell, dtype=float)
+        if mag == "nc_uniform":
+            v = {"z": np.array([0., 0., 1.]), "x": np.array([1., 0., 0.]), "a": L0[0], "a+b": L0[0] + L0[1],
+                 "generic": np.array([0.3, -0.5, 0.8])}[spec.get("magdir", "z")]
+            unit_moments = np.tile(1.5 * v / np.linalg.norm(v), (len(cell), 1))
+        elif mag == "col_uniform":
+            unit_moments = np.full(len(cell), 2.0)
+        else:
+            mrng = rng_from(spec["key"] + 17)
+            unit_moments = mrng.choice([-1.0, 1.0], size=len(cell))
+        cell = cell.copy()
+        cell.magnetic_moments = unit_moments
+        if pm == "auto" or mag == "col_afm":
+            pm = "none"  # 'auto' is documented not to work with moments; a centring need not respect an antiferromagnetic pattern
     if pm == "none":
         pmat = None
     elif pm == "centring":
-        pmat = c["centring"] if c["centring"] else "auto"
+        pmat = c["centring"] if c["centring"] else ("auto" if mag == "none" else None)
     elif pm == "explicit":
         from phonopy.structure.cells import get_primitive_matrix_by_centring
 
@@ -85,7 +107,16 @@ def run_fit(spec):
     scell = ph.supercell
     n = len(scell)
     rng = rng_from(spec["key"])
-    fc, nops = dense_fc(scell, rng)
+    if unit_moments is None:
+        fc, nops = dense_fc(scell, rng)
+    else:
+        # moments of the supercell atoms from their positions (not from the object): unit-cell coordinates modulo 1
+        xu = scell.scaled_positions @ S.T
+        d = xu[:, None, :] - c["cell"].scaled_positions[None, :, :]
+        d -= np.rint(d)
+        s2u = np.argmin(np.linalg.norm(d @ np.array(c["cell"].cell), axis=2), axis=1)
+        fc, nops = dense_fc(scell, rng, ops=own_magnetic_ops(scell, unit_moments[s2u]))
+        mag_reduced = nops < len(own_ops(scell)[0])
     if spec.get("regenerate"):
         ph.generate_displacements(distance=0.07, is_plusminus=True, is_diagonal=not spec["is_diagonal"])
         _ = ph.supercells_with_displacements  # a user looks at the first set, then decides on other settings
@@ -107,7 +138,17 @@ def run_fit(spec):
             u = np.zeros((n, 3))
             u[d["number"]] = d["displacement"]
             forces.append(-np.einsum("ijab,jb->ia", fc, u))
-    ph.forces = forces
+    order = spec.get("dataset_order", "as_generated")
+    if order == "as_generated":
+        ph.forces = forces
+    else:
+        entries = [{"number": int(d["number"]), "displacement": np.array(d["displacement"], dtype=float), "forces": np.array(f)}
+                   for d, f in zip(ph.dataset["first_atoms"], forces)]
+        if order == "reversed":
+            entries = entries[::-1]
+        elif order == "shuffled":
+            entries = [entries[i] for i in rng_from(spec["key"] + 5).permutation(len(entries))]
+        ph.dataset = {"natom": n, "first_atoms": entries}
     try:
         ph.produce_force_constants(calculate_full_force_constants=not spec["compact"])
     except Exception as e:
@@ -131,7 +172,9 @@ def run_fit(spec):
     nontriv = (nops // max(1, n // len(ph.primitive)) >= 2) or nondiag or interleaved or spec["compact"] or not spec["is_symmetry"]
     classes = [spec["crystal"]["kind"], "compact" if spec["compact"] else "full", "pm:%s" % spec["is_plusminus"],
                "nondiag" if nondiag else "diag", "trigonal:%s/diag:%s" % (spec.get("is_trigonal", False), spec["is_diagonal"]), "sym" if spec["is_symmetry"] else "nosym", "pmat:" + pm, "forces_from:" + spec.get("forces_from", "dataset"),
-               "regenerated" if spec.get("regenerate") else "single_generate",
+               "regenerated" if spec.get("regenerate") else "single_generate", "dataset_order:" + order,
+               "magmom:" + (mag if mag != "nc_uniform" else mag + "/" + spec.get("magdir", "z")),
+               "moments_lower_symmetry" if (unit_moments is not None and mag_reduced) else "moments_keep_symmetry_or_none",
                "ndisp:%d" % min(len(forces), 12)]
     tol = 1e-8
     if spec.get("forces_from") == "supercells":
